@@ -6,7 +6,8 @@ Well-formed: the block-id grid is a partition of the board into exactly n orthog
 
 Shape descriptor: (n, k, r, m) = "board size n, k stars, the partitions whose index in partitions(n) is = r mod m".
 Quick tier takes one residue class of the 62741 partitions of the 4 x 4 board (250 of them); the thorough tier covers
-all of them in 6 classes.  Boards n <= 3 are always complete (1, 6, 258 partitions).  Odd-indexed partitions are labelled
+all of them in 6 classes for k = 1, and one class (10457 partitions) for k = 2, where no star set satisfies even the
+row / column / no-touch rules on a 4 x 4 board, so the blocks cannot matter.  Boards n <= 3 are always complete (1, 6, 258 partitions).  Odd-indexed partitions are labelled
 in reverse (block id n-1-i) so that the labelling carries no meaning.
 
 mc/graphref.connected_partitions walks all Bell(n^2) set partitions, which is out of reach for 16 cells, so this module
@@ -127,7 +128,7 @@ class StarBattle(base.Rule):
         s = [(n, k, 0, 1) for n in (1, 2, 3) for k in (1, 2)]
         if tier == "quick":
             return s + [(4, 1, 0, 251), (4, 2, 0, 251)]
-        return s + [(4, k, r, 6) for k in (1, 2) for r in range(6)]
+        return s + [(4, 1, r, 6) for r in range(6)] + [(4, 2, 0, 6)]
 
     def instances(self, shape, cap):
         n, k, r, m = shape
